@@ -48,21 +48,4 @@ pub(crate) mod verif_kani {
         let s = unsafe { std::str::from_utf8_unchecked(&b[..len]) };
         assert_eq!(filename_to_position(s), None);
     }
-
-    /// K-gate (bounded): the GC gate agrees with what a GC pass would do.  For a tracker of two files whose oldest
-    /// is pinned or not by a live clone (symbolic): has_files_that_can_be_deleted() is true exactly when the oldest is
-    /// not pinned, i.e. exactly when take_first_unused() hands it out.
-    #[kani::proof]
-    #[kani::unwind(4)]
-    fn k_gate() {
-        let files = FileTracker::from_file_numbers(vec![0u64, 1u64]).unwrap();
-        let pin0: bool = kani::any();
-        let keep0 = if pin0 { Some(files.first().clone()) } else { None };
-        let mut dir = Directory { dir: PathBuf::new(), files };
-        let gate = dir.has_files_that_can_be_deleted();
-        assert_eq!(gate, !pin0);
-        let taken = dir.files.take_first_unused();
-        assert_eq!(taken.is_some(), gate);
-        drop(keep0);
-    }
 }
